@@ -19,10 +19,13 @@ def plan(quick):
         {"proto": "cmp-keygen", "n": 3, "t": 1, "kinds": ["fault", "hdr"], "alts": STRUCT, "limit": 8 if quick else 200},
     ]
     # the same handlers with a real worker pool: proofs are verified on worker goroutines, where the handler's recover
-    # cannot reach - one case per (message slot, field name) with the field null / absent
+    # cannot reach - one case per (message slot, field name) with the field null / absent / empty
+    NUL = ["null", "absent", "empty", "emptyarr", "emptymap"]
     p += [
-        {"proto": "cmp-keygen", "n": 3, "t": 1, "kinds": ["fault"], "alts": ["null", "absent"], "pool": True, "fieldwise": True, "limit": 20 if quick else None},
-        {"proto": "cmp-sign", "n": 3, "t": 2, "kinds": ["fault"], "alts": ["null", "absent"], "pool": True, "fieldwise": True, "limit": 12 if quick else None},
+        {"proto": "cmp-keygen", "n": 3, "t": 1, "kinds": ["fault"], "alts": NUL, "pool": True, "fieldwise": True, "limit": 24 if quick else None},
+        {"proto": "cmp-sign", "n": 3, "t": 2, "kinds": ["fault"], "alts": NUL, "pool": True, "fieldwise": True, "limit": 12 if quick else None},
+        {"proto": "doerner-keygen", "n": 2, "t": 1, "kinds": ["fault"], "alts": NUL, "pool": True, "fieldwise": True},
+        {"proto": "doerner-sign", "n": 2, "t": 1, "kinds": ["fault"], "alts": NUL, "pool": True, "fieldwise": True, "limit": 40 if quick else None},
     ]
     # announced counts of the hand-written binary encodings (polynomial commitments): 2^32-1, 2^31 and the overflow
     # points floor(2^32 / k) + 1 of every plausible element size k
@@ -35,9 +38,9 @@ def plan(quick):
               {"proto": "taproot-keygen", "n": 3, "t": 1, "kinds": ["fault"], "alts": ["len*"]}]
     if not quick:
         p += [
-            {"proto": "cmp-refresh", "n": 3, "t": 1, "kinds": ["fault"], "alts": ["null", "absent"], "pool": True, "fieldwise": True},
-            {"proto": "cmp-presign", "n": 3, "t": 2, "kinds": ["fault"], "alts": ["null", "absent"], "pool": True, "fieldwise": True},
-            {"proto": "doerner-sign", "n": 2, "t": 1, "kinds": ["fault"], "alts": ["null", "absent"], "pool": True, "fieldwise": True},
+            {"proto": "cmp-refresh", "n": 3, "t": 1, "kinds": ["fault"], "alts": NUL, "pool": True, "fieldwise": True},
+            {"proto": "cmp-presign", "n": 3, "t": 2, "kinds": ["fault"], "alts": NUL, "pool": True, "fieldwise": True},
+            {"proto": "doerner-refresh", "n": 2, "t": 1, "kinds": ["fault"], "alts": NUL, "pool": True, "fieldwise": True},
         ]
     if not quick:
         p += [
@@ -59,6 +62,10 @@ def run(tier):
     dealers = [{"kind": "dealercheat", "proto": p, "n": 3, "t": 1, "byz": b, "alt": a, "sched": vlib.seed() * 5 + i}
                for i, (p, b, a) in enumerate((p, b, a) for p in ("frost-keygen", "frost-refresh", "taproot-keygen", "taproot-refresh")
                                              for b in ("a", "b", "c") for a in ("plus", "minus"))]
+    # a malformed chain-key contribution / RID that is committed to consistently (only the validation of the opened value stops it)
+    dealers += [{"kind": "dealercheat", "proto": pr, "n": 3, "t": 1, "byz": "abc"[(i + vlib.seed()) % 3], "alt": "commit:" + a, "sched": vlib.seed() * 5 + 200 + i}
+                for i, (pr, a) in enumerate((pr, a) for pr in ("frost-keygen", "taproot-keygen", "frost-refresh", "cmp-keygen", "cmp-refresh")
+                                            for a in ("c-short", "c-long", "c-empty", "rid-short", "rid-long", "rid-empty") if pr.startswith("cmp") or a.startswith("c-"))]
     # the same for CMP: the polynomial a party deals is replaced at start, so that its commitment, shares and proofs agree with it
     dealers += [{"kind": "dealercheat", "proto": pr, "n": 3, "t": 1, "byz": b, "alt": a, "sched": vlib.seed() * 5 + 100 + i}
                 for i, (pr, b, a) in enumerate((pr, b, a) for pr in ("cmp-keygen", "cmp-refresh") for b in ("a", "b", "c")
